@@ -79,6 +79,8 @@ STRENGTHENED = {
     "C14w8-process-wide-miss-cache": "C14: a platform that cannot reach a header the others find through `-I`; a repeat of the same schedule in one process that differs is now a violation of its own (it used to stop the check as a harness error) — C18 already reported it",
     "C10w9-excludes-sorted-set": "C10: order-sensitive exclude lists (pattern, then the negation that re-includes from it) always go through the three front ends; the rendering itself had silently dropped out when same-named sub-directories were added and is now anchored to the top level",
     "C14w9-quote-include-cache-by-file": "C14: a quoted include that two platforms resolve through different `-I` directories (C08 already reported it)",
+    "C03wA-nonlast-vararg-not-preexpanded": "C03: a nested call of the same macro in a variable argument that is not the last one",
+    "C17wA-sentinel-inside-continuation": "C17: the product state now includes how many lines the reference has counted that the implementation has not credited (two histories that differ in it were merged before the difference could surface at the end of the statement)",
     "C11-split-fast-path": "C11: backslash-escaped and double-quoted renderings of the command string",
 }
 
